@@ -252,7 +252,12 @@ def check(ctx):
     from .common_flags import flag_metadata_rule
     flag_metadata_rule(ctx, "C05.R6")
 
+    # ---------------- generic inheritance (shared with C01.R12)
+    from .c01 import generic_substitution_rule
+    generic_substitution_rule(ctx, "C05.R7")
+
 def mutants(mb):
+    mb.add_text("generic-base-top-level-substitution", "apischema/typing.py", "            base_parameters = getattr(base, \"__parameters__\", ())\n            if base_parameters:\n                base = base[tuple(substitution.get(p, p) for p in base_parameters)]\n", "            if getattr(base, \"__parameters__\", ()):\n                base = get_origin(base)[tuple(substitution.get(a, a) for a in get_args(base))]\n", "C05.R7", "base-substitution")
     mb.add_text("flag-placeholder-none", "apischema/metadata/implem.py", "    return MetadataImplem({key: ...})\n", "    return MetadataImplem({key: None})\n", "C05.R6", "DEFAULT_AS_SET_METADATA")
     mb.add_text("neg-flag-placeholder-true", "apischema/metadata/implem.py", "    return MetadataImplem({key: ...})\n", "    return MetadataImplem({key: True})\n", negative=True)
     mb.add_text("neg-flag-tested-by-presence", "apischema/fields.py", "            if field.metadata.get(DEFAULT_AS_SET_METADATA):\n", "            if DEFAULT_AS_SET_METADATA in field.metadata:\n", negative=True)
